@@ -176,9 +176,10 @@ def tiny_specs(thorough):
         stocks = (0.4, 1.5) if thorough else (0.4,)
         seaweeds = (False, True) if thorough else (False,)
         # industrial foods both below and far above what people may eat of them (a surplus must go to feed/biofuel, where the
-        # per-use caps bind); the charge menu includes biofuel above feed (a cap taken from the wrong charge shows only then)
+        # per-use caps bind); the charge menu includes biofuel above feed (a cap taken from the wrong charge shows only then) and a
+        # biofuel charge far below the feed charge (below the per-use caps of the feed side)
         for stock, cr, mt, scp, cs, ch, sw, store, fb, waste in itertools.product(stocks, crops, meats, (None, 0.3, 0.9), (None, 0.6), (0.0, 0.3), seaweeds, (True, False),
-                                                                                  ((0.0, 0.0), (0.1, 0.05), (0.05, 0.2)), (0.0, 20.0)):
+                                                                                  ((0.0, 0.0), (0.1, 0.05), (0.05, 0.2), (0.1, 0.004)), (0.0, 20.0)):
             yield dict(N=N, need=1000.0, stock=stock, crops=cr, meat=mt, scp=scp, cs=cs, const_h=ch, seaweed=sw, store=store, feed=fb[0], biofuel=fb[1], waste=waste)
 
 
